@@ -56,7 +56,7 @@ class TraceGlue:
             if args or kwargs:
                 return R("cfg", meth=K(call.func.attr), of=fval, args=K(tuple(st.freeze(a) for a in args)))
             return R("cfg", meth=K(call.func.attr), of=fval)
-        callee = self.repo.resolve_callee(self.ri.cur_fi, call)
+        callee = self.ri.resolve(call, fval)
         if callee is self.tc:
             self.calls.append({k: st.freeze(v) for k, v in bind_values(callee, args, kwargs).items()})
             return R("trace_calls_context", n=K(len(self.calls)))
@@ -98,7 +98,7 @@ class TraceCallsGlue:
             raise AnalysisError("trace_calls: no outcome")
 
     def hook(self, call: ast.Call, fname: Optional[str], fval: Optional[V], args: List[V], kwargs: Dict[str, V], st: State) -> Optional[V]:
-        callee = self.repo.resolve_callee(self.ri.cur_fi, call)
+        callee = self.ri.resolve(call, fval)
         if callee is self.init:
             b = {k: st.freeze(v) for k, v in bind_values(callee, args, kwargs, skip_self=True).items()}
             self.ctor.append(b)
